@@ -3,7 +3,7 @@ import MaddyVerif.Lemmas.PoolKey
 # C19 — a pooled connection has one owner at a time and is closed once
 
 Quantifier: every schedule (`List Who` of any length: goroutine steps with arbitrary map-iteration picks,
-clock ticks, connection breaks), any number of workers running any programs of get / use / return / drop /
+clock ticks, connection breaks, cancellations of a worker's context), any number of workers running any programs of get / use / return / drop /
 clean-up / shutdown on any keys, any configuration.  `run (init cfg progs) ws` is the state after schedule `ws`.
 
 The model (`Model/Pool.lean`) mirrors `pool.go` *after* the fix "pool.Get emptied an expired bucket after
@@ -290,7 +290,7 @@ theorem holder_enabled {s : St} (hs : SInv s) {i : Nat} {t : Task} (ht : s.tasks
   case gDropClose k h => split <;> simp
   case gDrain k h =>
     have := recv_closed_not_block hpc
-    split <;> simp_all
+    split <;> (try split) <;> simp_all
   case rIter => split <;> (try split) <;> (try split) <;> simp
   case rClose => split <;> simp
   case rDrain =>
@@ -324,7 +324,7 @@ theorem free_enabled {s : St} (hs : SInv s) {i : Nat} {t : Task} (ht : s.tasks[i
   case wClose => simp
   case kClose => simp
   case gLock => simp; split <;> (try split) <;> (try split) <;> simp
-  case gSel => split <;> simp
+  case gSel => split <;> (try split) <;> simp
   case gUsable => split <;> (try split) <;> simp
   case rLock => simp; split <;> (try split) <;> (try split) <;> (try split) <;> simp
   case cLock => simp; split <;> simp
@@ -363,6 +363,118 @@ theorem C19_no_deadlock_single_shutdown (cfg : Cfg) (progs : List (List Op)) (ws
       have := hsh.2 htk
       have := sd_pos_of_sStop s.tasks i t hi hp
       omega
+
+/-! ## cancellation: a `Get` whose context is cancelled or times out
+
+The context of a worker can be cancelled by the schedule at any point (`Who.cancel i`: before `Get` starts, between
+any two of its synchronisation points, while it is inside `Usable()`).  `Get` itself never looks at the context; it
+only passes it to `cfg.New`, which fails on a context that is done.  So a `Get` has three outcomes — a pooled
+connection, a new connection, the context's error — and the error can only come from `cfg.New`: a connection that
+was already taken out of a bucket is never left behind. -/
+
+/-- **A connection taken out of a bucket is handed out or closed, cancelled or not.**  The step `Get` takes after
+`Usable()` answered — whatever the state of the caller's context — either hands the connection to the caller (under
+the key of the call) or passes it to a `go conn.Close()` goroutine and goes on to the next one.  There is no third
+way out (`return nil, ctx.Err()` with the connection in a local variable). -/
+theorem C19_get_hands_out_or_closes (s s' : St) (i p k h c : Nat) (prog : List Op) (held : List (ConnId × Key))
+    (ht : s.tasks[i]? = some ⟨.gUsable k h c, prog, held⟩)
+    (hstep : stepTask s i ⟨.gUsable k h c, prog, held⟩ p = some s') :
+    s'.tasks[i]? = some ⟨.idle, prog, held ++ [(c, k)]⟩ ∨
+      (s'.tasks[i]? = some ⟨.gSel k h, prog, held⟩ ∧ s'.tasks[s.tasks.length]? = some ⟨.kClose c, [], []⟩) := by
+  have hi := lt_of_getElem? ht
+  simp only [stepTask] at hstep
+  split at hstep
+  · simp only [Option.some.injEq] at hstep; subst hstep
+    right
+    simp [spawnCloser, setTask, List.getElem?_append_left, hi]
+  · split at hstep
+    · simp only [Option.some.injEq] at hstep; subst hstep
+      right
+      simp [spawnCloser, setTask, List.getElem?_append_left, hi]
+    · simp only [Option.some.injEq] at hstep; subst hstep
+      left
+      simp [setTask, hi]
+
+theorem fresh_step {s s' : St} {w : Who} (hstep : step s w = some s') : s.fresh ≤ s'.fresh := by
+  cases w with
+  | task i p =>
+    simp only [step] at hstep
+    split at hstep
+    · simp at hstep
+    · rename_i t ht; exact (cnt_stepTask ht hstep 0).2.1
+  | tick d => simp only [step, Option.some.injEq] at hstep; subst hstep; exact Nat.le_refl _
+  | brk c =>
+    simp only [step] at hstep
+    split at hstep
+    · simp only [Option.some.injEq] at hstep; subst hstep; exact Nat.le_refl _
+    · simp at hstep
+  | cancel i => simp only [step, Option.some.injEq] at hstep; subst hstep; exact Nat.le_refl _
+
+theorem fresh_run (s : St) (ws : List Who) : s.fresh ≤ (run s ws).fresh := by
+  induction ws generalizing s with
+  | nil => exact Nat.le_refl _
+  | cons w ws ih =>
+    simp only [run, next]
+    cases h : step s w with
+    | none => simpa using ih s
+    | some s' => exact Nat.le_trans (fresh_step h) (by simpa using ih s')
+
+theorem run_append (s : St) (a b : List Who) : run s (a ++ b) = run (run s a) b := by
+  induction a generalizing s with
+  | nil => rfl
+  | cons w a ih => simp only [List.cons_append, run]; exact ih _
+
+/-- **A connection a `Get` took out of a bucket is never lost, whenever the context is cancelled.**  Let a goroutine
+be inside `Get` with connection `c` taken out of a bucket (parked in `Usable()`), after any schedule `ws`.  Then after
+every continuation `ws'` — which may cancel the context of that goroutine (or of anybody) at any point, move the
+clock, break the connection, shut the pool down — `c` is still at exactly one place: held by a worker, idle in a
+bucket, carried by a goroutine of the pool that is about to close it, closed once, or (after shutdown only,
+`C19_no_drop_while_live`) dropped by `Return`.  In particular it is never at no place at all. -/
+theorem C19_cancelled_get_never_loses_conn (cfg : Cfg) (progs : List (List Op)) (ws ws' : List Who)
+    (i k h c : Nat) (t : Task) (hi : (run (init cfg progs) ws).tasks[i]? = some t) (hpc : t.pc = .gUsable k h c) :
+    cnt (run (init cfg progs) (ws ++ ws')) c = 1 := by
+  have h1 := (reach_inv cfg progs ws).one c
+  have hfresh : c < (run (init cfg progs) ws).fresh := by
+    by_cases hlt : c < (run (init cfg progs) ws).fresh
+    · exact hlt
+    · exfalso
+      have h0 := h1.2 (by omega)
+      have hge := taskCnt_ge _ i t c hi
+      have : 1 ≤ (Task.conns t).count c := by
+        unfold Task.conns
+        rw [hpc]
+        simp [Pc.conns]
+      unfold cnt at h0
+      omega
+  have hmono := fresh_run (run (init cfg progs) ws) ws'
+  rw [← run_append] at hmono
+  exact ((reach_inv cfg progs (ws ++ ws')).one c).1 (by omega)
+
+/-- **The cancellation outcome of `Get`.**  A step of `Get` taken under a context that is done never creates a
+connection and never changes what the caller holds, unless it is the hand-out of a pooled connection
+(`C19_get_hands_out_or_closes`): where the live `Get` would come back with a new connection, the cancelled one comes
+back with the context's error and nothing else. -/
+theorem C19_cancelled_get_creates_nothing (s s' : St) (i p : Nat) (t : Task) (hc : s.cancelled i = true)
+    (hpc : (∃ k, t.pc = .gLock k) ∨ (∃ k h, t.pc = .gDropClose k h) ∨ (∃ k h, t.pc = .gDrain k h) ∨ (∃ k h, t.pc = .gSel k h))
+    (ht : s.tasks[i]? = some t) (hstep : stepTask s i t p = some s') :
+    s'.fresh = s.fresh ∧ ∃ t', s'.tasks[i]? = some t' ∧ t'.held = t.held := by
+  have hi := lt_of_getElem? ht
+  have hget : s.tasks[i] = t := by
+    have := List.getElem?_eq_getElem hi
+    rw [ht] at this
+    exact (Option.some.inj this).symm
+  obtain ⟨pc, prog, held⟩ := t
+  rcases hpc with ⟨k, rfl⟩ | ⟨k, h, rfl⟩ | ⟨k, h, rfl⟩ | ⟨k, h, rfl⟩
+  all_goals (
+    simp only [stepTask, hc, ↓reduceIte] at hstep
+    repeat' split at hstep
+    all_goals (try (simp only [Option.some.injEq, reduceCtorEq] at hstep))
+    all_goals (try subst hstep)
+    all_goals (try (obtain ⟨ch, rest, hch, hbuf, rfl⟩ := recv_conn ‹recv _ _ = _›))
+    all_goals (try (obtain ⟨ch, hch, hopen, rfl⟩ := closeChan_some ‹closeChan _ _ = _›))
+    all_goals (first
+      | (simp at hstep; done)
+      | (simp [setTask, spawnCloser, Pool.panic, List.getElem?_append_left, hi, hget]; done)))
 
 /-! ## the hypothesis is necessary; non-vacuity -/
 
@@ -413,6 +525,25 @@ example :
       (List.replicate 30 (.task 0 0))
     (s.tasks.map (·.pc)) = [.done] ∧ s.keysNil = true ∧ s.closed = [0] ∧ s.leaked = [1] ∧
       (s.tasks.map (·.held)) = [[(2, 1)]] ∧ s.fresh = 3 := by
+  decide
+
+/-- Non-vacuity of the cancellation theorems.  Worker 0 leaves connection 0 in the bucket of key 0; the context of
+worker 1 is cancelled while its `Get(0)` is parked in `Usable()` with that connection: `Get` still hands it out.
+The context of worker 2 is cancelled before its `Get(1)`: no bucket, `cfg.New` fails, the worker holds nothing and no
+connection was created.  Nothing is closed, nothing is lost. -/
+example :
+    let s := run (init cfgEx [[.get 0, .ret], [.get 0], [.get 1]])
+      (List.replicate 5 (.task 0 0) ++ [.task 1 0, .task 1 0, .task 1 0, .cancel 1, .task 1 0,
+        .cancel 2, .task 2 0, .task 2 0])
+    s.cancelled 1 = true ∧ (s.tasks.map (·.held)) = [[], [(0, 0)], []] ∧ (s.tasks.map (·.pc)) = [.idle, .idle, .idle] ∧
+      s.fresh = 1 ∧ s.closed = [] ∧ s.handLog.map (·.conn) = [0] := by
+  decide
+
+/-- … and the hypotheses of `C19_cancelled_get_never_loses_conn` hold on that schedule just after the `cancel`. -/
+example :
+    let s := run (init cfgEx [[.get 0, .ret], [.get 0], [.get 1]])
+      (List.replicate 5 (.task 0 0) ++ [.task 1 0, .task 1 0, .task 1 0, .cancel 1])
+    s.cancelled 1 = true ∧ (s.tasks.map (·.pc)) = [.idle, .gUsable 0 0 0, .idle] := by
   decide
 
 /-- Non-vacuity of `shutdowns progs ≤ 1`. -/
